@@ -33,7 +33,7 @@ EXHAUSTIVE = {'quick': False, 'thorough': False}   # the sweep is exhaustive, th
 
 
 def budget(tier):
-    return 12000 if tier == 'quick' else 300000
+    return 10000 if tier == 'quick' else 300000
 
 
 @st.composite
@@ -59,7 +59,7 @@ def _cases(draw, tier):
     if large:
         # two-digit ids, real CBC, no enumeration: the printed matching must be valid and
         # unblocked and stability_correct must say so
-        if pct(draw) < 35:
+        if pct(draw) < 20:
             inst = draw(strategies.crowd_instances(two_sided=True))
         else:
             inst = draw(strategies.instances(_lp.LARGE[tier], two_sided=True,
